@@ -13,7 +13,8 @@
   the list before that step, and results are compared as sets.  `find_flattened_children` folds over the
   symbols and the parent's keys inserting into a fresh dict; since a dict has each key once, the result is the
   parent restricted to the keys that fit one of the symbols and hold a value other than Null, which is how the
-  model states it.
+  model states it (`flattened`); the loops as written are `flattenedLoop` / `mergeLoop`, proved to build the same
+  dicts on distinct keys (Thm/C13: flattened_loop_eq, merge_loop_eq).
   Core-only imports (linked into `hsdriver`).
 -/
 import Hs.Model.NsAssoc
@@ -52,10 +53,21 @@ def plookup (pd : ProtoDefs) (n : Name) : Option ChildSpec :=
 def flattened (fuel : Nat) (ns : Ns) (flatten : List Name) (parent : PDict) : PDict :=
   parent.filter (fun kv => kv.2 != 0 && flatten.any (fun sym => fitsB fuel ns kv.1 sym))
 
+/-- `find_flattened_children` as the code's two loops run it (`flattened_loop_eq`: the same dict) -/
+def flatInner (fuel : Nat) (ns : Ns) (sym : Name) (parent : PDict) (acc : PDict) : PDict :=
+  parent.foldl (fun acc kv => if fitsB fuel ns kv.1 sym && kv.2 != 0 then pinsert kv.1 kv.2 acc else acc) acc
+
+def flattenedLoop (fuel : Nat) (ns : Ns) (flatten : List Name) (parent : PDict) : PDict :=
+  flatten.foldl (fun acc sym => flatInner fuel ns sym parent acc) []
+
 /-- `for (key, val) in flattened.iter() { dict.insert(key, val) }` (the keys of a dict are distinct: the direction of
 the fold is immaterial) -/
 def mergeInto (f : PDict) (c : PDict) : PDict :=
   f.foldr (fun kv d => pinsert kv.1 kv.2 d) c
+
+/-- the same as the code's loop runs it: first to last (`mergeLoop_eq`: no difference on a dict) -/
+def mergeLoop (f : PDict) (c : PDict) : PDict :=
+  f.foldl (fun d kv => pinsert kv.1 kv.2 d) c
 
 /-- `protos_from_def` -/
 def protosFromDef (fuel : Nat) (ns : Ns) (pd : ProtoDefs) (parent : PDict) (name : Name) : List PDict :=
